@@ -26,7 +26,7 @@ class C16(BaseCheck):
                       'surplus-close', 'reopen-after-last-close', 'same-key', 'different-key',
                       'underlying-closed-while-held', 'underlying-state-changes',
                       'requester-abandoned-while-opening', 'several-holders', 'holder-gone-before-connect',
-                      'surplus-close-from-inside-close', 'underlying-close-raises')
+                      'surplus-close-from-inside-close', 'underlying-close-raises', 'underlying-open-fails-later')
   QUICK_CASES = 1500
   THOROUGH_CASES = 120000
   QUICK_WALL = 180
@@ -357,6 +357,18 @@ class C16(BaseCheck):
         classes.add('underlying-state-changes')
         if under.state_ == CLOSED and count > 0:
           classes.add('underlying-closed-while-held')
+      if rng.random() < 0.25:
+        # an open of the underlying sink that was still in flight completes now, successfully or not:
+        # who holds the shared sink does not change
+        pend = [e[1] for e in log if e[0] == 'open' and not e[1].ready()]
+        if pend:
+          ar_ = rng.choice(pend)
+          if rng.random() < 0.5:
+            ar_.set(True)
+          else:
+            classes.add('underlying-open-fails-later')
+            ar_.set_exception(Exception('connect failed'))
+          env.settle()
       if rng.random() < 0.5 and count < holders * 2:
         got = rc.Open()
         opens = sum(1 for e in log if e[0] == 'open') - opens_before
